@@ -885,4 +885,491 @@ Proof.
   destruct (pack_elem host dl rec_pack cf c (FSeqElem i) e (slot_set sp (FSeqElem i) v) (set_cur fr p));
     try reflexivity. apply IH.
 Qed.
+(* ---- moves ---- *)
+Definition mv_u (arg : marg) (s : slots) (off : Z) : res Z :=
+  match arg with
+  | MConst z => Ok z
+  | MField g => match slot_get s g with
+                | Some v => match as_int v with Some z => Ok z | None => Exn TypeError end
+                | None => Exn AttributeError
+                end
+  | MFun e => eval_int (mkctx raw s off) e
+  end.
+Definition mv_p (arg : marg) (s : slots) : res Z :=
+  match arg with
+  | MConst z => Ok z
+  | MField g => match slot_get s g with
+                | Some v => match as_int v with Some z => Ok z | None => Exn TypeError end
+                | None => Exn AttributeError
+                end
+  | MFun e => eval_int (pctx s) e
+  end.
+
+Lemma unpack_move_eq (cf : lconf) (c : cid) (i : Z) (arg : marg) (rf : reference) (al : bool) (s : slots) (off ipp : Z) :
+  unpack_field host raw rec_unpack loop_fuel cf c (CMove i arg rf al) s off ipp =
+  match mv_u arg s off with
+  | Exn x => FExn x
+  | Ok z => if al && (z =? 0) then FExn ZeroDivisionError
+            else match move_unpack al rf z off ipp with
+                 | Some o' => FOk s o' [TMove o']
+                 | None => FExn GenericError
+                 end
+  end.
+Proof. reflexivity. Qed.
+Lemma pack_move_eq (cf : lconf) (c : cid) (i : Z) (arg : marg) (rf : reference) (al : bool) (s : slots) (fr : frs) (ipp : Z) :
+  pack_field host dl rec_pack cf c (CMove i arg rf al) s fr ipp =
+  match mv_p arg s with
+  | Exn x => KExn x (cur fr)
+  | Ok z => match move_pack al rf z (cur fr) ipp with
+            | Some p => KOk s (set_cur fr p)
+            | None => KExn GenericError (cur fr)
+            end
+  end.
+Proof. reflexivity. Qed.
+
+Lemma rt_move_arg (i : Z) (arg : marg) (rf : reference) (al : bool) (s : slots) (off : Z) (sp : slots) (z : Z) :
+  cfield_rt base (CMove i arg rf al) = true -> agree i s sp -> mv_u arg s off = Ok z ->
+  mv_p arg sp = Ok z /\ (al = true -> 0 < z) /\ (rf = RBegins -> if al then base mod z = 0 else base = 0).
+Proof.
+  intros Hrt Hag H. cbn [cfield_rt] in Hrt. destruct arg as [z0|g|e]; cbn [mv_u mv_p] in *.
+  - injection H as ->. apply andb_true_iff in Hrt as [H1 H2]. split; [reflexivity|]. split.
+    + intros ->. apply Z.ltb_lt. exact H1.
+    + intros ->. destruct al; [apply Z.eqb_eq|apply Z.eqb_eq]; exact H2.
+  - destruct g as [j| | | | |]; try discriminate.
+    apply andb_true_iff in Hrt as [H12 H3]. apply andb_true_iff in H12 as [H1 H2].
+    apply negb_true_iff in H1. subst al. apply negb_true_iff in H2. apply Z.eqb_neq in H2.
+    destruct (slot_get s (FN j)) as [v|] eqn:G; [|discriminate].
+    rewrite (Hag j v H2 G). split; [exact H|]. split; [discriminate|].
+    intros ->. apply Z.eqb_eq. exact H3.
+  - apply andb_true_iff in Hrt as [H12 H3]. apply andb_true_iff in H12 as [H1 H2].
+    apply negb_true_iff in H1. subst al.
+    split; [exact (eval_int_mono raw s off sp i e z Hag H2 H)|]. split; [discriminate|].
+    intros ->. apply Z.eqb_eq. exact H3.
+Qed.
+
+Lemma pack_opt_eq (cf : lconf) (c : cid) (i : Z) (e : elem) (w : expr) (d : value) (sp : slots) (fr : frs)
+      (ipp : Z) (v : value) :
+  slot_get sp (FN i) = Some v -> v <> VNone ->
+  pack_field host dl rec_pack cf c (COpt i e w d) sp fr ipp =
+  pack_elem host dl rec_pack cf c (FOptElem i) e (slot_set sp (FOptElem i) v) fr.
+Proof.
+  intros G Hv. cbn [pack_field]. rewrite G. destruct v; try reflexivity. congruence.
+Qed.
+
+(* ---- one field ---- *)
+Lemma rt_field (cf : lconf) (c : cid) (f : cfield) (s : slots) (off ipp : Z) (s1 : slots) (o1 : Z) (t1 : trace) :
+  cfield_rt base f = true -> slots_all s -> base <= off ->
+  unpack_field host raw rec_unpack loop_fuel cf c f s off ipp = FOk s1 o1 t1 -> tr_ok base raw t1 ->
+  slots_all s1 /\ (forall j, ~ In j (fidx f) -> slot_get s1 (FN j) = slot_get s (FN j)) /\ base <= o1 /\
+  forall sp fr, agree (cf_idx f) s sp ->
+    (forall j, In j (fidx f) -> slot_get sp (FN j) = slot_get s1 (FN j)) -> cur fr = off - base ->
+    kspec base t1 fr o1 (pack_field host dl rec_pack cf c f sp fr (ipp - base)) (keeps_fn sp).
+Proof.
+  intros Hrt Hall Hb H Htr.
+  destruct f as [i arg rf al|i e|i fst lst run0 sh mk nb d|i e count until when d al|i e when d|i].
+  - (* Move *)
+    rewrite unpack_move_eq in H. destruct (mv_u arg s off) as [z|] eqn:Emv; [|discriminate].
+    destruct (al && (z =? 0)); [discriminate|].
+    destruct (move_unpack al rf z off ipp) as [o'|] eqn:Em; [|discriminate].
+    injection H as <- <- <-. pose proof (tr_ok_move _ _ _ _ Htr) as Ho'.
+    split; [exact Hall|]. split; [reflexivity|]. split; [exact Ho'|].
+    intros sp fr Hag _ Hcur. cbn [cf_idx] in Hag.
+    destruct (rt_move_arg i arg rf al s off sp z Hrt Hag Emv) as (Ep & Hal & Hbeg).
+    rewrite pack_move_eq, Ep, Hcur.
+    rewrite (move_shift_unpack_to_pack al rf z off ipp base o' Hbase Hal Hbeg Em Ho').
+    unfold kspec. cbn [ins_trace]. exists sp, (set_cur fr (o' - base)).
+    split; [reflexivity|]. split; [apply same_content_set_cur|]. split; [reflexivity|]. intros j; reflexivity.
+  - (* Elem *)
+    cbn [unpack_field cfield_rt] in *.
+    destruct (rt_elem cf c (FN i) i e s off s1 o1 t1 Hrt Hall Hb H Htr) as (v & -> & Hv & _ & Ho & Hk).
+    split; [apply slots_all_set; assumption|]. split.
+    { intros j Hj. apply slot_get_set_other. intros E. injection E as ->. apply Hj. left; reflexivity. }
+    split; [exact Ho|].
+    intros sp fr Hag Hsp Hcur. cbn [pack_field cf_idx] in *.
+    apply (kspec_weaken base t1 fr o1 _ (fun sp' => sp' = sp)); [intros ? -> j; reflexivity|].
+    apply Hk; [|exact Hag|exact Hcur]. rewrite (Hsp i ltac:(left; reflexivity)). apply slot_get_set_same.
+  - discriminate.
+  - (* Seq *)
+    cbn [cfield_rt] in Hrt. apply andb_true_iff in Hrt as [Hrt12 Hmod]. apply andb_true_iff in Hrt12 as [Hrt Hal].
+    apply Z.ltb_lt in Hal. apply Z.eqb_eq in Hmod.
+    cbn [unpack_field] in H. set (s0 := slot_set s (FN i) (VList [])) in *.
+    assert (Hall0 : slots_all s0) by (apply slots_all_set; [exact Hall|reflexivity]).
+    assert (Hl0 : slot_get s0 (FN i) = Some (VList [])) by apply slot_get_set_same.
+    assert (Hfr0 : forall j, j <> i -> slot_get s0 (FN j) = slot_get s (FN j))
+      by (intros j Hj; apply slot_get_set_other; congruence).
+    match type of H with match ?X with _ => _ end = _ => destruct X as [n|]; [|discriminate] end.
+    match type of H with match ?X with _ => _ end = _ => destruct X as [[|]|]; try discriminate end.
+    + injection H as <- <- <-. split; [exact Hall0|]. split.
+      { intros j Hj. apply Hfr0. intros ->. apply Hj. left; reflexivity. }
+      split; [exact Hb|].
+      intros sp fr Hag Hsp Hcur. cbn [pack_field]. rewrite (Hsp i ltac:(left; reflexivity)), Hl0.
+      cbn [pack_seq]. apply kspec_nil; [apply same_content_refl|exact Hcur|intros j; reflexivity].
+    + destruct (unpack_count host raw rec_unpack cf c i e al (Z.to_nat n) s0 off []) as [sa oa ta| | |] eqn:Ec;
+        try discriminate.
+      assert (Hag0 : forall sp, agree i s sp -> agree i s0 sp).
+      { intros sp Hag j x Hj G. apply (Hag j x Hj). rewrite <- (Hfr0 j Hj). exact G. }
+      destruct until as [u|].
+      * rewrite unpack_until_acc in H.
+        destruct (unpack_until host raw rec_unpack loop_fuel cf c i e al u sa oa []) as [sb ob tb| | |] eqn:Eu;
+          try discriminate.
+        injection H as <- <- <-. apply tr_ok_app in Htr as [Htra Htrb].
+        destruct (rt_count cf c i e al Hrt Hal Hmod _ _ _ _ _ _ _ Ec Hl0 Hall0 Hb Htra)
+          as (vs1 & Hla & Hfra & Halla & Hoa & Hka).
+        destruct (rt_until cf c i e al u Hrt Hal Hmod _ _ _ _ _ _ _ Eu Hla Halla Hoa Htrb)
+          as (vs2 & Hlb & Hfrb & Hallb & Hob & Hkb).
+        split; [exact Hallb|]. split.
+        { intros j Hj. assert (j <> i) by (intros ->; apply Hj; left; reflexivity).
+          rewrite Hfrb, Hfra, Hfr0 by assumption. reflexivity. }
+        split; [exact Hob|].
+        intros sp fr Hag Hsp Hcur. cbn [pack_field cf_idx] in *.
+        rewrite (Hsp i ltac:(left; reflexivity)), Hlb. rewrite pack_seq_app.
+        refine (kspec_seq base ta tb fr oa ob _ (fun a b => pack_seq host dl rec_pack cf c i e al vs2 a b)
+                  (keeps_fn sp) (keeps_fn sp) _ _).
+        -- apply Hka; [apply Hag0; exact Hag|exact Hcur].
+        -- intros sp' fr2 Hkeep Hc. apply (kspec_weaken base tb fr2 ob _ (keeps_fn sp')).
+           ++ intros sx Hx j. rewrite (Hx j). exact (Hkeep j).
+           ++ apply Hkb; [|exact Hc]. intros j x Hj G. rewrite (Hkeep j). apply (Hag j x Hj).
+              rewrite <- (Hfr0 j Hj), <- (Hfra j Hj). exact G.
+      * injection H as <- <- <-.
+        destruct (rt_count cf c i e al Hrt Hal Hmod _ _ _ _ _ _ _ Ec Hl0 Hall0 Hb Htr)
+          as (vs1 & Hla & Hfra & Halla & Hoa & Hka).
+        split; [exact Halla|]. split.
+        { intros j Hj. assert (j <> i) by (intros ->; apply Hj; left; reflexivity).
+          rewrite Hfra, Hfr0 by assumption. reflexivity. }
+        split; [exact Hoa|].
+        intros sp fr Hag Hsp Hcur. cbn [pack_field cf_idx] in *.
+        rewrite (Hsp i ltac:(left; reflexivity)), Hla.
+        apply Hka; [apply Hag0; exact Hag|exact Hcur].
+  - (* Opt *)
+    cbn [unpack_field cfield_rt] in *.
+    destruct (eval (mkctx raw s off) when) as [w|]; [|discriminate].
+    destruct (truth w).
+    + destruct (unpack_elem host raw rec_unpack cf c (FOptElem i) e s off) as [sa oa ta| | |] eqn:Ee; try discriminate.
+      injection H as <- <- <-.
+      destruct (rt_elem cf c (FOptElem i) i e s off sa oa ta Hrt Hall Hb Ee Htr) as (v & -> & Hv & Hnn & Ho & Hk).
+      assert (Hev : elem_value (slot_set s (FOptElem i) v) (FOptElem i) = v)
+        by (unfold elem_value; rewrite slot_get_set_same; reflexivity).
+      rewrite Hev.
+      split; [apply slots_all_set; [apply slots_all_set|]; assumption|]. split.
+      { intros j Hj. rewrite !slot_get_set_other; [reflexivity|discriminate|].
+        intros E. injection E as ->. apply Hj. left; reflexivity. }
+      split; [exact Ho|].
+      intros sp fr Hag Hsp Hcur. cbn [cf_idx] in *.
+      assert (G : slot_get sp (FN i) = Some v)
+        by (rewrite (Hsp i ltac:(left; reflexivity)); apply slot_get_set_same).
+      rewrite (pack_opt_eq cf c i e when d sp fr (ipp - base) v G Hnn).
+      apply (kspec_weaken base ta fr oa _ (fun sp' => sp' = slot_set sp (FOptElem i) v)).
+      { intros ? -> j. apply slot_get_set_other. discriminate. }
+      apply Hk; [apply slot_get_set_same| |exact Hcur].
+      intros j x Hj Gx. rewrite slot_get_set_other by discriminate. exact (Hag j x Hj Gx).
+    + injection H as <- <- <-.
+      split; [apply slots_all_set; [exact Hall|reflexivity]|]. split.
+      { intros j Hj. apply slot_get_set_other. intros E. injection E as ->. apply Hj. left; reflexivity. }
+      split; [exact Hb|].
+      intros sp fr Hag Hsp Hcur. cbn [pack_field].
+      rewrite (Hsp i ltac:(left; reflexivity)), slot_get_set_same.
+      apply kspec_nil; [apply same_content_refl|exact Hcur|intros j; reflexivity].
+  - (* Em *)
+    cbn [unpack_field] in H. injection H as <- <- <-.
+    split; [exact Hall|]. split; [reflexivity|]. split; [exact Hb|].
+    intros sp fr _ _ Hcur. cbn [pack_field].
+    apply (kspec_weaken base [TChunk off []] fr off _ (fun sp' => sp' = sp)); [intros ? -> j; reflexivity|].
+    pose proof (emit_spec base off [] fr sp Hcur) as E. rewrite FragProofs.blen_nil, Z.add_0_r in E. exact E.
+Qed.
+(* ---- the field loop ---- *)
+Lemma rt_fields (cf : lconf) (c : cid) : forall fs s off ipp v e tq,
+  forallb (cfield_rt base) fs = true -> NoDup (fidxs fs) ->
+  (forall j, In j (fidxs fs) -> slot_get s (FN j) = None) -> slots_all s -> base <= off ->
+  unpack_fields host raw rec_unpack loop_fuel cf c fs s off ipp [] = POk v e tq -> tr_ok base raw tq ->
+  exists sf, v = VPkt c sf /\ slots_all sf /\
+    (forall j, ~ In j (fidxs fs) -> slot_get sf (FN j) = slot_get s (FN j)) /\ base <= e /\
+    forall sp fr, keeps_fn sf sp -> cur fr = off - base ->
+      qspec base tq fr e (pack_fields host dl rec_pack cf c fs sp fr (ipp - base)).
+Proof.
+  induction fs as [|f r IH]; intros s off ipp v e tq Hrt Hnd Hfresh Hall Hb H Htr; cbn [unpack_fields] in H.
+  - injection H as <- <- <-. exists s. split; [reflexivity|]. split; [exact Hall|].
+    split; [reflexivity|]. split; [exact Hb|].
+    intros sp fr _ Hcur. cbn [pack_fields]. unfold qspec. cbn [ins_trace].
+    exists (VPkt c sp), fr. split; [reflexivity|]. split; [apply same_content_refl|exact Hcur].
+  - cbn [forallb] in Hrt. apply andb_true_iff in Hrt as [Hrtf Hrtr].
+    unfold fidxs in Hnd, Hfresh. cbn [flat_map] in Hnd, Hfresh. fold (fidxs r) in Hnd, Hfresh.
+    destruct (nodup_app_disj _ _ Hnd) as [Hndr Hdisj].
+    destruct (unpack_field host raw rec_unpack loop_fuel cf c f s off ipp) as [s1 o1 t1| | |] eqn:Ef;
+      try discriminate.
+    rewrite unpack_fields_acc in H. cbn [app] in H.
+    destruct (unpack_fields host raw rec_unpack loop_fuel cf c r s1 o1 ipp []) as [v2 e2 t2| |] eqn:Er;
+      try discriminate.
+    injection H as <- <- <-. apply tr_ok_app in Htr as [Htr1 Htr2].
+    destruct (rt_field cf c f s off ipp s1 o1 t1 Hrtf Hall Hb Ef Htr1) as (Hall1 & Hfr1 & Ho1 & Hk).
+    assert (Hfresh1 : forall j, In j (fidxs r) -> slot_get s1 (FN j) = None).
+    { intros j Hj. rewrite Hfr1.
+      - apply Hfresh. apply in_or_app. right. exact Hj.
+      - intros Hin. exact (Hdisj j Hin Hj). }
+    destruct (IH s1 o1 ipp v2 e2 t2 Hrtr Hndr Hfresh1 Hall1 Ho1 Er Htr2) as (sf & -> & Hallf & Hfrf & He & Hq).
+    exists sf. split; [reflexivity|]. split; [exact Hallf|]. split.
+    { intros j Hj. rewrite Hfrf, Hfr1; [reflexivity| |]; intros Hin; apply Hj; apply in_or_app; auto. }
+    split; [exact He|].
+    intros sp fr Hsp Hcur. cbn [pack_fields].
+    refine (kq_seq base t1 t2 fr o1 e2 _ (fun a b => pack_fields host dl rec_pack cf c r a b (ipp - base))
+              (fun at_cur => [(at_cur, cf_name f, c)])
+              (fun st => st ++ [(match st with (o, _, _) :: _ => o | [] => cur fr end, cf_name f, c)])
+              (keeps_fn sp) _ _).
+    + apply Hk; [| |exact Hcur].
+      * intros j x Hj G. rewrite (Hsp j).
+        assert (Hnin : ~ In j (fidx f ++ fidxs r)).
+        { intros Hin. rewrite (Hfresh j Hin) in G. discriminate. }
+        rewrite Hfrf, Hfr1; [exact G| |]; intros Hin; apply Hnin; apply in_or_app; auto.
+      * intros j Hj. rewrite (Hsp j). apply Hfrf. exact (Hdisj j Hj).
+    + intros sp' fr2 Hkeep Hc. apply Hq; [|exact Hc].
+      intros j. rewrite (Hkeep j). exact (Hsp j).
+Qed.
 End RT.
+
+(* ------------------------------------------------------------------------------------------ *)
+(** * Closing the recursion on fuel                                                            *)
+(* ------------------------------------------------------------------------------------------ *)
+
+Lemma nodupb_NoDup (l : list Z) : nodupb l = true -> NoDup l.
+Proof.
+  induction l as [|a r IH]; cbn [nodupb]; intros H; [constructor|].
+  apply andb_true_iff in H as [H1 H2]. constructor; [|exact (IH H2)].
+  intros Hin. apply negb_true_iff in H1.
+  assert (E : existsb (Z.eqb a) r = true) by (apply existsb_exists; exists a; split; [exact Hin|apply Z.eqb_refl]).
+  congruence.
+Qed.
+
+Lemma ct_get_forallb (P : cclass -> bool) (ct : ctab) (c : cid) (k : cclass) :
+  forallb (fun ck => P (snd ck)) ct = true -> ct_get ct c = Some k -> P k = true.
+Proof.
+  induction ct as [|[c' k'] r IH]; cbn [forallb ct_get]; [discriminate|].
+  intros H G. apply andb_true_iff in H as [H1 H2]. destruct (c =? c').
+  - injection G as <-. exact H1.
+  - exact (IH H2 G).
+Qed.
+
+Theorem rt_all (host : bool) (dl : dstate) (ct : ctab) (raw : bytes) (base : Z) :
+  wf_bytes raw -> 0 <= base -> ct_rt base ct = true -> ct_distinct ct = true ->
+  forall fuel, rt_inv base raw (unpack_pkt fuel host ct raw) (pack_pkt fuel host dl ct).
+Proof.
+  intros Hraw Hbase Hrt Hdis. induction fuel as [|fuel IH]; intros c o v e t H Hbo Htr; cbn [unpack_pkt] in H.
+  - discriminate.
+  - destruct (ct_get ct c) as [k|] eqn:Ec; [|discriminate].
+    pose proof (ct_get_forallb (fun k => forallb (cfield_rt base) (cc_fields k)) ct c k Hrt Ec) as Hk1.
+    pose proof (ct_get_forallb (fun k => nodupb (fidxs (cc_fields k))) ct c k Hdis Ec) as Hk2.
+    cbv beta in Hk1, Hk2. apply nodupb_NoDup in Hk2.
+    destruct (rt_fields host raw (unpack_pkt fuel host ct raw) fuel dl (pack_pkt fuel host dl ct) base
+                Hraw Hbase IH (cc_conf k) c (cc_fields k) [] o o v e t Hk1 Hk2
+                ltac:(intros; reflexivity) ltac:(constructor) Hbo H Htr)
+      as (sf & -> & Hallf & _ & He & Hq).
+    exists sf. split; [reflexivity|]. split; [exact Hallf|]. split; [exact He|].
+    intros fr Hcur. cbn [pack_pkt]. rewrite Ec, Hcur. apply Hq; [intros j; reflexivity|exact Hcur].
+Qed.
+
+Theorem roundtrip_trace : forall fuel host dl ct raw c off base v e t fr,
+  wf_bytes raw -> ct_distinct ct = true ->
+  ct_rt base ct = true -> 0 <= base <= off -> cur fr = off - base ->
+  unpack_pkt fuel host ct raw c off = POk v e t -> trace_from base t -> trace_in raw t ->
+  exists s, v = VPkt c s /\
+    match ins_trace base t fr with
+    | Frag.Ok fr1 => exists v' fr2, pack_pkt fuel host dl ct c s fr = QOk v' fr2 /\ same_content fr2 fr1 /\ cur fr2 = e - base
+    | _ => exists st, pack_pkt fuel host dl ct c s fr = QFail st
+    end.
+Proof.
+  intros fuel host dl ct raw c off base v e t fr Hraw Hdis Hrt [Hb0 Hb1] Hcur H Htf Hti.
+  destruct (rt_all host dl ct raw base Hraw Hb0 Hrt Hdis fuel c off v e t H Hb1 (conj Htf Hti))
+    as (s & -> & _ & _ & Hq).
+  exists s. split; [reflexivity|]. exact (Hq fr Hcur).
+Qed.
+
+(* ------------------------------------------------------------------------------------------ *)
+(** * Packet.pack() of a parsed packet, against the sparse-array specification                 *)
+(* ------------------------------------------------------------------------------------------ *)
+
+Lemma ins_trace_run_ops (base : Z) (t : trace) : forall fr k,
+  fst (run_ops fr (chunk_ops base t) k) = ins_trace base t fr.
+Proof.
+  induction t as [|x t IH]; intros fr k.
+  - reflexivity.
+  - destruct x as [p b| |]; unfold chunk_ops; cbn [flat_map app]; fold (chunk_ops base t); cbn [ins_trace].
+    + cbn [run_ops apply_op]. destruct (insert fr (p - base) b); try reflexivity. apply IH.
+    + apply IH.
+    + apply IH.
+Qed.
+
+Lemma chunk_ops_nonneg (base : Z) (t : trace) : trace_from base t -> Forall op_nonneg (chunk_ops base t).
+Proof.
+  unfold trace_from. induction t as [|x t IH]; intros H.
+  - constructor.
+  - inversion H as [|? ? Hx Ht]; subst. unfold chunk_ops. cbn [flat_map]. fold (chunk_ops base t).
+    destruct x as [p b| |]; cbn [app]; try exact (IH Ht).
+    constructor; [cbn [op_nonneg]; lia|exact (IH Ht)].
+Qed.
+
+Theorem roundtrip_bytes : forall fuel host dl ct raw c off s e t,
+  wf_bytes raw -> ct_distinct ct = true ->
+  ct_rt off ct = true -> 0 <= off ->
+  unpack_pkt fuel host ct raw c off = POk (VPkt c s) e t -> trace_from off t -> trace_in raw t ->
+  match fold_a aempty (chunk_ops off t) with
+  | Some a => exists v', pack_top fuel host dl ct c s = PBytes (a_tobytes a) v'
+  | None => exists st, pack_top fuel host dl ct c s = PErr st
+  end.
+Proof.
+  intros fuel host dl ct raw c off s e t Hraw Hdis Hrt Hoff H Htf Hti.
+  destruct (roundtrip_trace fuel host dl ct raw c off off (VPkt c s) e t empty Hraw Hdis Hrt ltac:(lia)
+              ltac:(cbn [cur empty]; lia) H Htf Hti) as (s0 & Es & Hp).
+  injection Es as <-.
+  pose proof (history_refines (chunk_ops off t) empty aempty R_empty (chunk_ops_nonneg off t Htf) 0) as Hh.
+  rewrite ins_trace_run_ops in Hh. unfold pack_top.
+  destruct (ins_trace off t empty) as [fr1| |].
+  - destruct Hh as (a' & -> & HR). destruct Hp as (v' & fr2 & -> & [Hfr _] & _).
+    exists v'. f_equal. rewrite <- (tobytes_refines fr1 a' HR). unfold tobytes. rewrite Hfr. reflexivity.
+  - rewrite Hh. destruct Hp as (st & ->). exists st. reflexivity.
+  - contradiction.
+Qed.
+
+Print Assumptions roundtrip_trace.
+Print Assumptions roundtrip_bytes.
+
+(* ------------------------------------------------------------------------------------------ *)
+(** * Every class built by `describe` has distinct field indices                               *)
+(* ------------------------------------------------------------------------------------------ *)
+
+Definition didx (d : dfield) : list Z := match d with DMove _ _ _ _ => [] | DBody i _ => [i] end.
+Fixpoint zseq (i : Z) (n : nat) : list Z := match n with O => [] | S n' => i :: zseq (i + 1) n' end.
+
+Lemma compile_fields_idxs (al : option Z) : forall ds before l,
+  compile_fields al before ds = Some l -> fidxs l = flat_map didx ds.
+Proof.
+  induction ds as [|d rest IH]; intros before l H; cbn [compile_fields] in H.
+  - injection H as <-. reflexivity.
+  - match type of H with match ?X with _ => _ end = _ => destruct X as [cf|] eqn:Et; [|discriminate] end.
+    destruct (compile_fields al (d :: before) rest) as [l'|] eqn:Er; [|discriminate].
+    injection H as <-. unfold fidxs. cbn [flat_map]. fold (fidxs l'). rewrite (IH _ _ Er). f_equal.
+    destruct d as [i arg rf a|i b].
+    + injection Et as <-. reflexivity.
+    + destruct b as [e|w dflt|e cnt unt whn dflt a|e whn dflt|]; try (injection Et as <-; reflexivity).
+      destruct (bits_compile _) as [[sm nbytes]|]; [|discriminate].
+      destruct (nth_error sm _) as [[shift mask]|]; [|discriminate].
+      injection Et as <-. reflexivity.
+Qed.
+
+Lemma describe_fields_idxs (al : option Z) : forall fs i,
+  flat_map didx (describe_fields al fs i) = zseq i (length fs).
+Proof.
+  induction fs as [|f r IH]; intros i; cbn [describe_fields length zseq]; [reflexivity|].
+  rewrite flat_map_app, IH.
+  destruct (match fd_move f with Some m => Some m | None => _ end) as [[[arg rf] a]|]; reflexivity.
+Qed.
+
+Lemma zseq_ge (n : nat) : forall i x, In x (zseq i n) -> i <= x.
+Proof.
+  induction n as [|n IH]; intros i x; cbn [zseq]; [intros []|].
+  intros [<-|H]; [lia|]. specialize (IH _ _ H). lia.
+Qed.
+Lemma zseq_nodup (n : nat) : forall i, NoDup (zseq i n).
+Proof.
+  induction n as [|n IH]; intros i; cbn [zseq]; constructor; [|apply IH].
+  intros H. apply zseq_ge in H. lia.
+Qed.
+Lemma NoDup_nodupb (l : list Z) : NoDup l -> nodupb l = true.
+Proof.
+  induction l as [|a r IH]; intros H; [reflexivity|]. inversion H as [|? ? Hn Hr]; subst.
+  cbn [nodupb]. rewrite (IH Hr), andb_true_r. apply negb_true_iff.
+  destruct (existsb (Z.eqb a) r) eqn:E; [|reflexivity].
+  apply existsb_exists in E as (x & Hx & Hax). apply Z.eqb_eq in Hax. subst x. contradiction.
+Qed.
+
+Theorem describe_distinct : forall p k, describe p = Some k -> nodupb (fidxs (cc_fields k)) = true.
+Proof.
+  intros p k H. unfold describe in H.
+  destruct (compile_fields (pc_align p) [] (describe_fields (pc_align p) (pc_fields p) 0)) as [l|] eqn:E;
+    [|discriminate].
+  injection H as <-. cbn [cc_fields]. apply NoDup_nodupb.
+  rewrite (compile_fields_idxs _ _ _ _ E), describe_fields_idxs. apply zseq_nodup.
+Qed.
+
+(* ------------------------------------------------------------------------------------------ *)
+(** * Refutations: each added hypothesis is necessary; and a non-vacuity instance              *)
+(* ------------------------------------------------------------------------------------------ *)
+
+Definition rt_mk (fs : list cfield) : cclass :=
+  {| cc_conf := empty_conf; cc_gen_pack := false; cc_gen_unpack := false; cc_vectorize := false; cc_fields := fs |}.
+Definition rt_dl0 : dstate := fun _ _ => [].
+Definition rt_u8 : elem := ELeafE (LInt 1 false None VNone).
+
+(* without wf_bytes raw: the byte 300 is decoded, its re-encoding overflows *)
+Example refute_without_wf_bytes :
+  let ct := [(0, rt_mk [CElem 0 rt_u8])] in
+  ct_rt 0 ct = true /\ ct_distinct ct = true /\
+  unpack_pkt 3 true ct [300] 0 0 = POk (VPkt 0 [(FN 0, VInt 300)]) 1 [TChunk 0 [300]] /\
+  trace_from 0 [TChunk 0 [300]] /\ trace_in [300] [TChunk 0 [300]] /\
+  ins_trace 0 [TChunk 0 [300]] empty = Frag.Ok {| frags := [(0, [300])]; begins := [0]; cur := 1 |} /\
+  pack_pkt 3 true rt_dl0 ct 0 [(FN 0, VInt 300)] empty = QFail [(0, FN 0, 0)].
+Proof.
+  cbv zeta. repeat split; try (vm_compute; reflexivity).
+  - constructor; [lia|constructor].
+  - constructor; [vm_compute; discriminate|constructor].
+Qed.
+
+(* without ct_distinct: two fields named 0, the second value overwrites the first *)
+Example refute_without_distinct :
+  let ct := [(0, rt_mk [CElem 0 rt_u8; CElem 0 rt_u8])] in
+  let t := [TChunk 0 [1]; TChunk 1 [2]] in
+  ct_rt 0 ct = true /\ wf_bytes [1; 2] /\
+  unpack_pkt 3 true ct [1; 2] 0 0 = POk (VPkt 0 [(FN 0, VInt 2)]) 2 t /\
+  trace_from 0 t /\ trace_in [1; 2] t /\
+  option_map a_tobytes (fold_a aempty (chunk_ops 0 t)) = Some [1; 2] /\
+  pack_top 3 true rt_dl0 ct 0 [(FN 0, VInt 2)] = PBytes [2; 2] (VPkt 0 [(FN 0, VInt 2)]).
+Proof.
+  cbv zeta. repeat split; try (vm_compute; reflexivity).
+  - repeat constructor; unfold wf_byte; lia.
+  - repeat constructor; lia.
+  - repeat constructor; vm_compute; discriminate.
+Qed.
+
+(* without trace_in: a read-to-end field at offset 5 of an empty buffer sends the parse cursor back to 0 *)
+Example refute_without_trace_in :
+  let ct := [(0, rt_mk [CElem 0 (ELeafE (LDataEos VNone)); CMove 1 (MConst 8) RCur false; CEm 1])] in
+  let t := [TChunk 5 []; TMove 8; TChunk 8 []] in
+  ct_rt 5 ct = true /\ ct_distinct ct = true /\ wf_bytes [] /\
+  unpack_pkt 3 true ct [] 0 5 = POk (VPkt 0 [(FN 0, VBytes [])]) 8 t /\
+  trace_from 5 t /\
+  option_map a_tobytes (fold_a aempty (chunk_ops 5 t)) = Some [46; 46; 46] /\
+  pack_top 3 true rt_dl0 ct 0 [(FN 0, VBytes [])] =
+    PBytes [46; 46; 46; 46; 46; 46; 46; 46] (VPkt 0 [(FN 0, VBytes [])]).
+Proof.
+  cbv zeta. repeat split; try (vm_compute; reflexivity).
+  - constructor.
+  - repeat constructor; lia.
+Qed.
+
+(* non-vacuity: a class with a move, a selector-chosen leaf, a sequence of nested packets and an optional
+   field, parsed at offset 2 with base 2; all hypotheses hold and pack() returns the consumed bytes *)
+Definition rt_ex_ct : ctab :=
+  [(0, rt_mk [CElem 0 rt_u8;
+              CMove 1 (MField (FN 0)) RInner false;
+              CElem 1 (ERefSel (EChoose (EBin Sub (EField (FN 0)) (ELit (VInt 2)))
+                                        [ELit (VLeaf (LInt 2 false (Some EBig) VNone));
+                                         ELit (VLeaf (LDataMarker [0] false VNone))]) VNone);
+              CSeq 2 (ERefPkt 1 []) (Some (ELit (VInt 2))) None None (VList []) 2;
+              COpt 3 rt_u8 (EBin Eq (EField (FN 0)) (ELit (VInt 2))) VNone;
+              CEm 4]);
+   (1, rt_mk [CElem 0 rt_u8])].
+Definition rt_ex_raw : bytes := [9; 9; 2; 7; 1; 2; 5; 7; 6; 8].
+
+Example roundtrip_nonvacuous :
+  exists s e t,
+    unpack_pkt 5 true rt_ex_ct rt_ex_raw 0 2 = POk (VPkt 0 s) e t /\
+    ct_rt 2 rt_ex_ct = true /\ ct_distinct rt_ex_ct = true /\ wf_bytes rt_ex_raw /\
+    trace_from 2 t /\ trace_in rt_ex_raw t /\
+    pack_top 5 true rt_dl0 rt_ex_ct 0 s = PBytes [2; 46; 1; 2; 5; 46; 6; 8] (VPkt 0 s).
+Proof.
+  eexists _, _, _. split; [vm_compute; reflexivity|].
+  split; [vm_compute; reflexivity|]. split; [vm_compute; reflexivity|].
+  split; [repeat constructor; unfold wf_byte; lia|].
+  split; [repeat constructor; lia|]. split; [repeat constructor; vm_compute; discriminate|].
+  vm_compute. reflexivity.
+Qed.
+
+Print Assumptions describe_distinct.
+Print Assumptions roundtrip_nonvacuous.
